@@ -1,11 +1,13 @@
 #!/usr/bin/env python3
 """Regenerates MANIFEST.json from the table below (kept in one place so that it is always valid)."""
 import json, os
-ROOT = os.path.dirname(os.path.abspath(__file__))
+ROOT = os.path.dirname(os.path.dirname(os.path.abspath(__file__)))
 TECH = "bounded symbolic execution of the real dreye functions on z3-backed numpy object arrays; each clause decided by an SMT (z3) unsat query; sat models replayed on the unpatched code"
 NOTE_COMMON = ("Reals, not floats. Shapes are bounded as stated in the evidence file (contents are fully symbolic). Compiled components are replaced by the contract "
                "stubs listed in DESIGN.md section 3 and in the evidence; a sat model is reported only after it reproduces on the unpatched code; unknown => exit 2.")
 CHECKS = {
+ "C02": ("system_capture / system_relative_capture / capture / relative_capture of a symbolic estimator (symbolic filters, sources, domain, K, baseline, intensities) equal the harness's "
+         "trapezoid capture of the mixed spectrum and K(Q+baseline) as polynomial identities; the adaptation mutators give K = 1/(Q+baseline) (or K_old + that) and relative capture 1", "4 C02"),
  "C01": ("every entry of calculate_capture / integral / ReceptorEstimator.capture equals the harness's own trapezoid (or rectangle) sum as a polynomial identity over all "
          "filter, signal and domain values, for every enumerated rank/shape; linearity and scalar-step==explicit-domain as separate identities", "4 C01"),
 }
